@@ -638,3 +638,146 @@ loop:
 		t.Errorf("got %d Write events for %d writes (%d lost, no ErrEventOverflow)", got, writes, writes-got)
 	}
 }
+
+// (demonstration of seeded change C11h, kept as a regression scenario: the change gives handleEvent and newEvent a
+// further parameter, which leaves their contracts stale, and resets the cookie store on every read)
+// The same through the public API: a consumer that is slow for a moment lets
+// the kernel queue grow past what one read(2) into the 64K buffer returns, so
+// that one of the moves is cut in two by the end of the buffer.
+func TestVerifScenario_C11_RenameAcrossReads(t *testing.T) {
+	dir := t.TempDir()
+	w, err := NewWatcher()
+	if err != nil {
+		t.Fatal(err)
+	}
+	defer w.Close()
+	if err := w.Add(dir); err != nil {
+		t.Fatal(err)
+	}
+
+	touch := func(name string) {
+		t.Helper()
+		fp, err := os.OpenFile(dir+"/"+name, os.O_CREATE|os.O_WRONLY, 0o644)
+		if err != nil {
+			t.Fatal(err)
+		}
+		fp.Close()
+	}
+
+	// The reader picks this one up and then waits for us in sendEvent().
+	touch("first")
+	time.Sleep(200 * time.Millisecond)
+
+	// Everything below queues up in the kernel: an odd number of records in
+	// front of a long run of FROM/TO pairs.
+	touch("f0")
+	const n = 1500
+	for i := 0; i < n; i++ {
+		a, b := "f0", "f1"
+		if i%2 == 1 {
+			a, b = b, a
+		}
+		if err := os.Rename(dir+"/"+a, dir+"/"+b); err != nil {
+			t.Fatal(err)
+		}
+	}
+
+	var (
+		creates, bad int
+		last         Event
+		timeout      = time.After(20 * time.Second)
+	)
+	for creates < n {
+		select {
+		case err := <-w.Errors:
+			t.Fatal(err)
+		case <-timeout:
+			t.Fatalf("timeout after %d moves", creates)
+		case e := <-w.Events:
+			if e.Has(Create) && last.Has(Rename) {
+				creates++
+				if e.renamedFrom != last.Name {
+					bad++
+					t.Errorf("move %d:\nhave: %s\nwant: %s", creates, e,
+						Event{Name: e.Name, Op: e.Op, renamedFrom: last.Name})
+				}
+			}
+			last = e
+		}
+	}
+}
+
+// (demonstration of seeded change C03i, kept as a regression scenario: the change moves the record walk of the decode
+// loop into a new helper, which leaves the loop contract of readEvents without its loop, and regroups a batch per watch)
+// Two watched directories of one Watcher, an unbuffered Events channel and a
+// consumer that starts late: the changes are made one after another, so the
+// events must come in exactly that order.
+func TestVerifScenario_C03_CrossWatchOrder(t *testing.T) {
+	tmp := t.TempDir()
+	d1, d2 := filepath.Join(tmp, "d1"), filepath.Join(tmp, "d2")
+	for _, d := range []string{d1, d2} {
+		if err := os.Mkdir(d, 0o755); err != nil {
+			t.Fatal(err)
+		}
+	}
+
+	w, err := NewWatcher()
+	if err != nil {
+		t.Fatal(err)
+	}
+	defer w.Close()
+	if err := w.Add(d1); err != nil {
+		t.Fatal(err)
+	}
+	if err := w.Add(d2); err != nil {
+		t.Fatal(err)
+	}
+
+	touch := func(p string) {
+		t.Helper()
+		fp, err := os.Create(p)
+		if err != nil {
+			t.Fatal(err)
+		}
+		fp.Close()
+	}
+
+	// The reader picks this one up and then waits for us to receive it; what
+	// follows piles up in the kernel queue and is read in one go.
+	touch(filepath.Join(d1, "first"))
+	time.Sleep(200 * time.Millisecond)
+
+	touch(filepath.Join(d1, "a"))
+	touch(filepath.Join(d2, "b"))
+	if err := os.Rename(filepath.Join(d1, "a"), filepath.Join(d2, "a")); err != nil {
+		t.Fatal(err)
+	}
+	if err := os.Remove(filepath.Join(d2, "b")); err != nil {
+		t.Fatal(err)
+	}
+	touch(filepath.Join(d1, "last"))
+
+	want := []string{
+		"CREATE " + filepath.Join(d1, "first"),
+		"CREATE " + filepath.Join(d1, "a"),
+		"CREATE " + filepath.Join(d2, "b"),
+		"RENAME " + filepath.Join(d1, "a"),
+		"CREATE " + filepath.Join(d2, "a"),
+		"REMOVE " + filepath.Join(d2, "b"),
+		"CREATE " + filepath.Join(d1, "last"),
+	}
+	var have []string
+	for len(have) < len(want) {
+		select {
+		case ev := <-w.Events:
+			have = append(have, ev.Op.String()+" "+ev.Name)
+		case err := <-w.Errors:
+			t.Fatal(err)
+		case <-time.After(2 * time.Second):
+			t.Fatalf("timeout; have so far:\n%q", have)
+		}
+	}
+	if strings.Join(have, "\n") != strings.Join(want, "\n") {
+		t.Errorf("wrong order\nhave:\n%q\nwant:\n%q", have, want)
+	}
+}
